@@ -183,6 +183,41 @@ def focused_body(rng, nmats, nobjs):
     return body
 
 
+def intflag_case(rng):
+    """a history on one matrix whose frames carry pairwise different identifiers all the time, with the extended flag stored as the
+    integer 1 (lookups ask with True): add, look up, re-address, delete, look up"""
+    ids = rng.sample([(0x10, False), (0x20, True), (0x18FEF100, True), (0x0CFEF102, True), (0x18EA2100, True), (0x1AFEF100, True), (0x30, True),
+                      (0x31, False)], 8)
+    ops = [["newMatrix"], ["newFrame", "A", ids[0][0], ids[0][1]], ["newFrame", "B", ids[1][0], ids[1][1]], ["newFrame", "C", ids[2][0], ids[2][1]],
+           ["addFrame", 0, 0], ["addFrame", 0, 1]]
+    cur = {0: ids[0], 1: ids[1], 2: ids[2]}
+    spare = list(ids[3:])
+    n0 = len(ops)
+    for _ in range(rng.randint(3, 10)):
+        k = rng.random()
+        h = rng.randrange(3)
+        if k < 0.45:
+            i, e = rng.choice(list(cur.values()) + spare[:1])
+            ops.append(["byId", 0, i, e])
+        elif k < 0.6:
+            ops.append(["byPgn", 0, rng.choice(PGNS)])
+        elif k < 0.75 and spare:
+            new = spare.pop()
+            spare.insert(0, cur[h])
+            cur[h] = new
+            ops.append(["setId", h, new[0], new[1]])
+        elif k < 0.85:
+            ops.append(["delFrame", 0, h])
+        else:
+            ops.append(["addFrame", 0, 2])
+    body = [n0, len(ops) - n0]
+    for i, e in ids:
+        ops.append(["byId", 0, i, e])
+    for p in PGNS:
+        ops.append(["byPgn", 0, p])
+    return {"op": "hist", "c": {"ops": ops, "body": body, "intflag": True}}
+
+
 def gen(rng, tier, shard, nshards):
     depth = 2 if tier == "quick" else 3
     k = 0
@@ -205,6 +240,8 @@ def gen(rng, tier, shard, nshards):
         yield mkcase(pre, focused_body(rng, nmats, nobjs), nmats)
     for _ in range(total // 3 + 1):
         yield gen_hdr(rng)
+    for _ in range(total // 2 + 1):
+        yield intflag_case(rng)
 
 
 def gen_hdr(rng):
@@ -244,6 +281,8 @@ def dbc_for(frames):
 
 
 class Run(object):
+    intflag = False
+
     def __init__(self):
         self.mats = []
         self.objs = []
@@ -270,7 +309,8 @@ class Run(object):
             if op[3] and op[2] == (op[2] & 0x3FFFF00):
                 aid = cm.ArbitrationId.from_pgn(op[2] >> 8)       # priority 0, source 0: as the J1939 helpers build it
             else:
-                aid = cm.ArbitrationId(op[2], op[3])
+                # (in the 'intflag' histories the extended flag is the integer 1, as the SYM reader sets it)
+                aid = cm.ArbitrationId(op[2], (1 if op[3] else False) if self.intflag else op[3])
             fr = cm.Frame(op[1], arbitration_id=aid, size=8)
             fr.add_signal(cm.Signal("s", start_bit=0, size=8))
             return {"h": self.reg(fr)}, None
@@ -290,7 +330,7 @@ class Run(object):
         if k == "setId":
             fr = self.objs[op[1]]
             fr.arbitration_id.id = op[2]
-            fr.arbitration_id.extended = op[3]
+            fr.arbitration_id.extended = (1 if op[3] else False) if self.intflag else op[3]
             return None, None
         db = self.mats[op[1]]
         if k == "addFrame":
@@ -346,6 +386,7 @@ def observe(case):
     if case["op"] == "hdr":
         return observe_hdr(case["c"])
     r = Run()
+    r.intflag = bool(case["c"].get("intflag"))
     outs, snaps, posts = [], [], []
     for op in case["c"]["ops"]:
         r.post = None
